@@ -1,7 +1,7 @@
 import logging
 import re
 from io import BytesIO
-from typing import Dict, List, Mapping, Optional, Sequence, Tuple, Union, cast
+from typing import Dict, List, Mapping, Optional, Sequence, Set, Tuple, Union, cast
 
 from pdfminer import settings
 from pdfminer.casting import (
@@ -386,9 +386,14 @@ class PDFPageInterpreter:
     def __init__(self, rsrcmgr: PDFResourceManager, device: PDFDevice) -> None:
         self.rsrcmgr = rsrcmgr
         self.device = device
+        # object ids of the form XObjects being rendered (shared with the
+        # interpreters made by dup() for their contents)
+        self.forms_in_progress: Set[object] = set()
 
     def dup(self) -> "PDFPageInterpreter":
-        return self.__class__(self.rsrcmgr, self.device)
+        interpreter = self.__class__(self.rsrcmgr, self.device)
+        interpreter.forms_in_progress = self.forms_in_progress
+        return interpreter
 
     def init_resources(self, resources: Dict[object, object]) -> None:
         """Prepare the fonts and XObjects listed in the Resource attribute."""
@@ -1245,6 +1250,14 @@ class PDFPageInterpreter:
                     raise PDFInterpreterError("Invalid form xobject: %r" % xobj)
                 log.warning("Ignoring form xobject with invalid geometry: %r", xobj)
                 return
+            form_id = xobj.objid if xobj.objid is not None else id(xobj)
+            if form_id in self.forms_in_progress:
+                # A form that invokes itself, directly or through other forms,
+                # would be rendered for ever.
+                if settings.STRICT:
+                    raise PDFInterpreterError("Recursive form xobject: %r" % xobjid)
+                log.warning("Ignoring recursive invocation of form xobject %r", xobjid)
+                return
             interpreter = self.dup()
             # According to PDF reference 1.7 section 4.9.1, XObjects in
             # earlier PDFs (prior to v1.2) use the page's Resources entry
@@ -1255,11 +1268,15 @@ class PDFPageInterpreter:
             else:
                 resources = self.resources.copy()
             self.device.begin_figure(xobjid, bbox, matrix)
-            interpreter.render_contents(
-                resources,
-                [xobj],
-                ctm=mult_matrix(matrix, self.ctm),
-            )
+            self.forms_in_progress.add(form_id)
+            try:
+                interpreter.render_contents(
+                    resources,
+                    [xobj],
+                    ctm=mult_matrix(matrix, self.ctm),
+                )
+            finally:
+                self.forms_in_progress.discard(form_id)
             # the form's interpreter shares the device: give it back our CTM
             self.device.set_ctm(self.ctm)
             self.device.end_figure(xobjid)
